@@ -158,6 +158,16 @@ CHECKS = {
        "Open known findings KF-C19-1 (Eof column, pinned by the repository's lexer tests), KF-C19-2 (0:0 inside interpolations).",
   tech="TLA+ well-formedness predicate; fault injection with known fault line; TLC judges abstracted diagnostics",
   ref="DESIGN.md 9/C19"),
+ "C14": dict(
+  text="spec/Trivia.tla defines the single trivia edits (trailing comment, whole-line comment indented like the previous / next "
+       "line, blank line, whitespace-only line, trailing spaces, final newline, CRLF) and TLC enumerates kind x position for every "
+       "line count (R2); the driver applies every edit to the programs of the C01 family, a slice of the C05-C09 probes and the "
+       "valid repository samples, and renders every C01 program a second time with redundant parentheses around every compound "
+       "operand; original and variant are transpiled and TLC (spec/EqualJudge.tla) requires the same verdict and the same emitted "
+       "bytes.",
+  note="Lines that end inside a string literal are not edited. The quick tier uses deterministic slices (no seeded choice).",
+  tech="TLC-enumerated trivia edits applied to TLC-enumerated programs and samples; differential check judged by TLC",
+  ref="DESIGN.md 9/C14"),
 }
 
 PENDING_REASON = "check not built yet in this snapshot (work in progress; see DESIGN.md section 13)"
